@@ -1221,6 +1221,15 @@ def check_c06(res, ctx):
         for k in sorted(r.sample(range(len(b)), min(len(b), 48))):
             lines.append("fr %s %s" % (core.hexs(b[:k]), sub))
         groups.append((start, len(lines)))
+    # ... and on a stream that cannot seek, where a skip reads and drops (and fails at the cut itself)
+    for b in files[:20 if ctx.tier == "quick" else 100]:
+        sub = r.choice(["-", "".join(r.choice("01") for _ in range(6)), "000000"])
+        pre = "pipe=%d " % r.choice([1, 2])
+        start = len(lines)
+        lines.append("%sfr %s %s" % (pre, b.hex(), sub))
+        for k in sorted(r.sample(range(len(b)), min(len(b), 48))):
+            lines.append("%sfr %s %s" % (pre, core.hexs(b[:k]), sub))
+        groups.append((start, len(lines)))
     full_of = {}
     for a, z in groups:
         for i in range(a + 1, z):
@@ -1231,7 +1240,7 @@ def check_c06(res, ctx):
     def oracle(l, h):
         return None
     hout, mout = compare(res, ctx, lines, "c06 truncated files",
-                         rule="every byte offset of generated files (library-style and reference layouts) up to the size bound and of the Spotfire sample files, 64..256 random offsets of larger ones; plus column-subset reads",
+                         rule="every byte offset of generated files (library-style and reference layouts) up to the size bound and of the Spotfire sample files, 64..256 random offsets of larger ones; plus column-subset reads, also through a FILE* that cannot seek (pipe=1|2)",
                          nontrivial=lambda l: len(l) > 40)
     bad = 0
     for i, a in full_of.items():
@@ -1550,6 +1559,11 @@ def check_c09(res, ctx):
     if ctx.tier == "quick" and len(skl) > 6000:
         skl = r.sample(skl, 6000)
     skl += extra_skip if len(extra_skip) <= 2000 else r.sample(extra_skip, 2000)
+    # the same on a stream that cannot seek (skips read and drop there): same statuses
+    for l in r.sample(skl, min(len(skl), 1500 if ctx.tier == "quick" else 20000)):
+        k3 = "pipe=%d %s" % (r.choice([1, 2]), l)
+        skl.append(k3)
+        meta[k3] = meta[l]
 
     def oracle_sk(l, h):
         f, v, ex = meta[l]
@@ -1562,7 +1576,7 @@ def check_c09(res, ctx):
                 f["kind"], f["off"], v, first, ex)
         return None
     compare(res, ctx, skl, "c09 field-wise corruption, skip path", oracle=oracle_sk,
-            rule="the corrupted files of the previous stage read with sbdf_ts_skip instead of sbdf_ts_read",
+            rule="the corrupted files of the previous stage read with sbdf_ts_skip instead of sbdf_ts_read, on regular files and through a FILE* that cannot seek (pipe=1|2)",
             nontrivial=lambda l: True)
     compare(res, ctx, lines, "c09 field-wise corruption", oracle=oracle,
             rule="every structural field (marker bytes, section ids, counts, lengths incl. 7-bit, type ids, encoding ids, table-level presence flags) of generated files x every corruption class applicable to it; the field map comes from the reference encoder",
@@ -1715,7 +1729,7 @@ def check_c05(res, ctx):
             d.append(dd)
         ncol = r.randrange(0, 6)
         sub = "-" if r.random() < 0.6 else "".join(r.choice("01") for _ in range(8))
-        l = "cap=262144 frw %s %s" % (core.hexs(data[:65536]), sub)
+        l = "cap=262144 %sfrw %s %s" % ("" if r.random() < 0.75 else "pipe=%d " % r.choice([1, 2]), core.hexs(data[:65536]), sub)
         lines.append(l)
         desc[l] = "+".join(d)
     for e in invalid:
@@ -1731,7 +1745,7 @@ def check_c05(res, ctx):
         e = ref.Enc()
         e.va(va)
         data, dd = gen.mutate_field(r, bytes(e.b), r.choice(e.f)) if r.random() < 0.8 else gen.mutate_random(r, bytes(e.b))
-        lines.append("cap=262144 varead " + core.hexs(data))
+        lines.append("cap=262144 %svaread %s" % ("" if r.random() < 0.75 else "pipe=%d " % r.choice([1, 2]), core.hexs(data)))
     documented = set(int(x) for x in re.findall(r'\("SBDF_\w+", (-?\d+)\)', open(os.path.join(LEAN, "Sbdf", "Gen", "Tables.lean")).read().split("def statusMacros")[1].split("]")[0]))
 
     def oracle(l, h):
